@@ -392,5 +392,54 @@ pub fn run(ctx: &mut Ctx) {
         }
         ctx.stat("tls_hosts_case");
     }
+    // certificate files that cannot be loaded as what they claim to be: a CERTIFICATE block whose body is not base64 (alone,
+    // and after a good certificate), a file with the key only, an empty file - in every class, built and through a hosts file
+    {
+        let good = std::fs::read_to_string(FIXTURE_PEM).unwrap_or_default();
+        let key_only: String = {
+            let a = good.find("-----BEGIN CERTIFICATE-----");
+            let b = good.find("-----END CERTIFICATE-----").map(|x| x + "-----END CERTIFICATE-----".len());
+            match (a, b) {
+                (Some(a), Some(b)) => format!("{}{}", &good[..a], &good[b..]),
+                _ => String::new(),
+            }
+        };
+        let broken_block = "-----BEGIN CERTIFICATE-----\n!!!! this is not base64 !!!!\n-----END CERTIFICATE-----\n";
+        let files: Vec<(&str, String)> = vec![
+            ("a certificate block that is not base64, with a good key", write_file(&dir, "bad1.pem", &format!("{}{}", key_only, broken_block))),
+            ("a good certificate followed by a block that is not base64", write_file(&dir, "bad2.pem", &format!("{}{}", good, broken_block))),
+            ("a block that is not base64 followed by a good certificate", write_file(&dir, "bad3.pem", &format!("{}{}", broken_block, good))),
+            ("a key and no certificate", write_file(&dir, "bad4.pem", &key_only)),
+            ("an empty file", write_file(&dir, "bad5.pem", "")),
+        ];
+        for (what, path) in &files {
+            for a in 0..4 {
+                let mut names: [Vec<(&str, &str)>; 4] = [vec![("m.example", FIXTURE_PEM)], vec![], vec![], vec![]];
+                names[a].push(("bad.example", path.as_str()));
+                if build(names.clone()).is_ok() {
+                    ctx.oracle_failure("tls_hosts_validation", &format!("a host in {} whose certificate file holds {}: the TLS host settings were accepted", classes[a], what));
+                }
+                let mut t = String::new();
+                for (k, l) in names.iter().enumerate() {
+                    for (n, pem) in l {
+                        // the key comes from the good file: only the certificate chain is at fault
+                        t.push_str(&format!("[[{}]]\nhostname = \"{}\"\ncert_chain_path = \"{}\"\nprivate_key_path = \"{}\"\n\n", classes[k], n, pem, FIXTURE_PEM));
+                    }
+                }
+                if let Ok(hs) = toml::from_str::<TlsHostsSettings>(&t) {
+                    let st = Settings::builder()
+                        .listen_address(("127.0.0.1", 1))
+                        .unwrap()
+                        .listen_protocols(trusttunnel::settings::ListenProtocolSettings { http1: Some(trusttunnel::settings::Http1Settings::builder().build()), http2: None, quic: None })
+                        .build()
+                        .unwrap();
+                    if Core::new(st, None, hs, Shutdown::new()).is_ok() {
+                        ctx.oracle_failure("tls_hosts_validation", &format!("a host in {} whose certificate file holds {} (hosts file): the endpoint started", classes[a], what));
+                    }
+                }
+                ctx.stat("tls_hosts_unloadable_certificate");
+            }
+        }
+    }
     let _ = std::fs::remove_dir_all(&dir);
 }
